@@ -1656,19 +1656,19 @@ class Pristine:
                     fh.write(out)
                 os._exit(0)
             os.close(w)
-            data, alive = b"", True
-            with os.fdopen(r, "rb") as fh:
-                while alive:
-                    ready, _, _ = select.select([fh], [], [], 60)
-                    if not ready:
-                        os.kill(pid, 9)
-                        data = pickle.dumps(("infra", "timeout"))
-                        break
-                    chunk = fh.read1(1 << 20) if hasattr(fh, "read1") else fh.read()
-                    if not chunk:
-                        alive = False
-                    else:
-                        data += chunk
+            chunks = []
+            while True:
+                ready, _, _ = select.select([r], [], [], 60)
+                if not ready:
+                    os.kill(pid, 9)
+                    chunks = [pickle.dumps(("infra", "timeout"))]
+                    break
+                chunk = os.read(r, 1 << 22)
+                if not chunk:
+                    break
+                chunks.append(chunk)
+            os.close(r)
+            data = b"".join(chunks)
             os.waitpid(pid, 0)
             conn.send_bytes(pickle.dumps((req["id"], pickle.loads(data))))
 
